@@ -439,3 +439,268 @@ Print Assumptions C05_examples9.
 Theorem C05_examples : nonvacuous.
 Proof. exact nonvacuous_holds. Qed.
 Print Assumptions C05_examples.
+
+(* ================================================================================================
+   ROUND 5
+   ================================================================================================ *)
+From FB Require C05.Theory10 C05.Theory11 C05.Theory12.
+From FB Require Base.Sort.
+From Coq Require Sorted.
+
+(* ---- 9. the directory as listed: resolve sorts the entries by file name first ---- *)
+(* [resolve] (sections 1-8) is the function of the SEQUENCE in which the files are processed; VersionGraph::resolve on a
+   directory listed in order d is [resolve_dir lr d].  The definitions, pinned: *)
+Theorem C05_resolve_dir_definition : forall C M (lr : C -> res M) (d : list (file C)),
+  resolve_dir lr d = resolve lr (if dir_sorted then sort_files d else d) /\ dir_sorted = true
+  /\ sort_files d = FB.Base.Sort.isort file_leb d
+  /\ (forall a b : file C, file_leb a b = match str_cmp (fst a) (fst b) with Gt => false | _ => true end)
+  /\ Permutation (sort_files d) d
+  /\ Sorted.Sorted (fun a b => file_leb a b = true) (sort_files d).
+Proof.
+  intros. split; [reflexivity|]. split; [reflexivity|]. split; [reflexivity|]. split; [reflexivity|].
+  split; [exact (FB.C05.Theory12.sort_files_perm d)|exact (FB.C05.Theory12.sort_files_sorted d)].
+Qed.
+Print Assumptions C05_resolve_dir_definition.
+
+(* EVERY directory (collisions of lookup names, non-confluent diamonds, malformed ones): any two listing orders give
+   LITERALLY the same result — same node indices, edge order, depths, lookup table, hence the same candidates.
+   (Files of a directory have distinct names.)  No well-formedness is needed any more. *)
+Theorem C05_resolve_dir_perm : forall C M (lr : C -> res M) (d d' : list (file C)),
+  nodup_strb (map fst d) = true -> Permutation d d' -> resolve_dir lr d = resolve_dir lr d'.
+Proof. exact @FB.C05.Theory12.resolve_dir_perm. Qed.
+Print Assumptions C05_resolve_dir_perm.
+
+(* the theorems about [resolve] do not see the order of the files; the three main ones restated for the directory as listed *)
+Theorem C05_dir_get_err_iff : forall C M (lr : C -> res M) (d : list (file C)) g s,
+  resolve_dir lr d = Ok g -> (get g s = Err <-> ~ FB.C05.Theory10.lookup_name d s).
+Proof. exact @FB.C05.Theory12.dir_get_err_iff. Qed.
+Print Assumptions C05_dir_get_err_iff.
+
+Theorem C05_dir_malformed_iff : forall C M (lr : C -> res M) (d : list (file C)),
+  well_formed d = true ->
+  (resolve_dir lr d = Err <->
+   has_bad d = true \/ tiny_count d <> 1%nat \/
+   exists f vr, In f d /\ classify (fst f) = FRoot vr /\
+     (lr (snd f) = Err \/
+      exists L Cy, nwalk d vr L /\ Cy <> [] /\ nwalk d (last L vr) Cy /\ last Cy (last L vr) = last L vr)).
+Proof. exact @FB.C05.Theory12.dir_malformed_iff. Qed.
+Print Assumptions C05_dir_malformed_iff.
+
+(* the end-to-end theorem of section 6 for the directory as listed, with confluence made explicit: every candidate is
+   extend (H v) up to map order, and any two candidates (two shortest paths) agree up to map order *)
+Theorem C05_dir_history_sound_instantiated :
+  forall (H : str -> FB.Quill.Mappings.mappings) (d : list (file str)) (rank : str -> nat),
+  well_formed d = true -> has_bad d = false -> tiny_count d = 1%nat ->
+  (forall f p v, In f d -> classify (fst f) = FEdge p v -> (rank p < rank v)%nat) ->
+  FB.C05.Instance.printed_history H d ->
+  exists g, resolve_dir (load_root FB.C05.Instance.vg_ops) d = Ok g /\
+    forall v, FB.C05.Instance.reachable d v -> forall k, In k (keys v) ->
+    exists sp i, get g k = Ok (sp, i) /\ nth_error (g_nodes g) i = Some v
+      /\ candidates_by_name FB.C05.Instance.vg_ops g k <> []
+      /\ (forall r, In r (candidates_by_name FB.C05.Instance.vg_ops g k) ->
+            FB.C05.Instance.res_rel FB.C04.Theory2.mequiv r (FB.C11.Model.extend (H v) ns_named))
+      /\ (forall r1 r2, In r1 (candidates_by_name FB.C05.Instance.vg_ops g k) -> In r2 (candidates_by_name FB.C05.Instance.vg_ops g k) ->
+            FB.C05.Instance.res_rel FB.C04.Theory2.mequiv r1 r2).
+Proof. exact FB.C05.Theory12.dir_history_sound_instantiated. Qed.
+Print Assumptions C05_dir_history_sound_instantiated.
+
+(* ---- 10. lookup: EVERY string that is not a lookup name is refused (every directory, any processing order) ---- *)
+(* lookup names = the plain version strings and both halves of the a~b strings that the file names mention *)
+Theorem C05_lookup_name_definition : forall C (d : list (file C)) s,
+  (FB.C05.Theory10.lookup_name d s <-> exists v, In v (dir_versions d) /\ In s (keys v))
+  /\ (FB.C05.Theory10.lookup_nameb d s = true <-> FB.C05.Theory10.lookup_name d s).
+Proof. intros. split; [reflexivity|apply FB.C05.Theory10.lookup_nameb_spec]. Qed.
+Print Assumptions C05_lookup_name_definition.
+
+Theorem C05_get_err_iff : forall C M (lr : C -> res M) (d : list (file C)) g s,
+  resolve lr d = Ok g -> (get g s = Err <-> ~ FB.C05.Theory10.lookup_name d s).
+Proof. exact @FB.C05.Theory10.get_err_iff. Qed.
+Print Assumptions C05_get_err_iff.
+
+(* ... decided by a boolean on the file names *)
+Theorem C05_get_decides : forall C M (lr : C -> res M) (d : list (file C)) g s,
+  resolve lr d = Ok g -> if FB.C05.Theory10.lookup_nameb d s then exists x, get g s = Ok x else get g s = Err.
+Proof. exact @FB.C05.Theory10.get_decides. Qed.
+Print Assumptions C05_get_decides.
+
+(* where no version string has two `~`, every string that contains `~` is refused: a whole a~b name, a mismatched
+   pairing of two existing halves, a key with a `~suffix` *)
+Theorem C05_get_tilde_refused : forall C M (lr : C -> res M) (d : list (file C)) g s,
+  resolve lr d = Ok g ->
+  (forall v a b, In v (dir_versions d) -> split_once sep_split v = Some (a, b) -> ~ In sep_split b) ->
+  In sep_split s -> get g s = Err.
+Proof. exact @FB.C05.Theory10.get_tilde_refused. Qed.
+Print Assumptions C05_get_tilde_refused.
+
+(* well-formed directories: an answer is the version the name belongs to, with the half it is *)
+Theorem C05_get_spec_wf : forall C M (lr : C -> res M) (d : list (file C)) g s,
+  well_formed d = true -> resolve lr d = Ok g ->
+  match get g s with
+  | Err => ~ FB.C05.Theory10.lookup_name d s
+  | Ok (sp, i) => exists v, In v (dir_versions d) /\ nth_error (g_nodes g) i = Some v /\
+      match split_once sep_split v with
+      | Some (a, b) => (s = a /\ sp = SFirst) \/ (s <> a /\ s = b /\ sp = SSecond)
+      | None => s = v /\ sp = SNone
+      end
+  end.
+Proof. exact @FB.C05.Theory10.get_spec_wf_unfolded. Qed.
+Print Assumptions C05_get_spec_wf.
+
+(* ---- 11. the FIFO walker queue of resolve = the level-by-level walk of the model ---- *)
+(* [qrun es root q ds r]: the Rust loop `while let Some((path, head)) = walkers.pop_front() { update depth; for v in
+   neighbours { if path.contains(v) { bail } walkers.push_back((path + v, v)) } }` started with queue q and depths ds ends
+   with r.  The relation is pinned by its one-step unfolding: *)
+Theorem C05_qrun_unfold : forall C (es : list (edge C)) root q ds r,
+  FB.C05.Theory10.qrun es root q ds r <->
+  match q with
+  | [] => r = Ok ds
+  | w :: q' => if loops es w then r = Err else FB.C05.Theory10.qrun es root (q' ++ expand es w) (upd_depth root ds w) r
+  end.
+Proof. exact @FB.C05.Theory10.qrun_unfold. Qed.
+Print Assumptions C05_qrun_unfold.
+
+(* on a graph with n nodes whose edge targets are nodes: the queue loop ends, and with exactly what [walk] returns *)
+Theorem C05_queue_generations : forall C (es : list (edge C)) root n ds r,
+  (forall e, In e es -> (e_dst e < n)%nat) ->
+  FB.C05.Theory10.qrun es root [([], root)] ds r <-> walk (S n) es root [([], root)] ds = r.
+Proof. exact @FB.C05.Theory10.queue_generations. Qed.
+Print Assumptions C05_queue_generations.
+
+(* resolve specified with the queue loop (a relation transcribing the Rust function) is what the model computes *)
+Theorem C05_resolve_is_fifo : forall C M (lr : C -> res M) (d : list (file C)) out,
+  match scan_dir scan0 d with
+  | Err => out = Err
+  | Ok st =>
+      match sc_root st with
+      | None => out = Err
+      | Some (root, f) =>
+          match lr (snd f) with
+          | Err => out = Err
+          | Ok m =>
+              exists rd, FB.C05.Theory10.qrun (sc_edges st) root [([], root)] (repeat O (length (sc_nodes st))) rd
+                /\ out = match rd with
+                         | Ok ds => Ok (mkGraph root m (sc_tbl st) (sc_nodes st) ds (sc_edges st))
+                         | Err => Err
+                         end
+          end
+      end
+  end <-> resolve lr d = out.
+Proof. exact @FB.C05.Theory10.resolve_is_fifo. Qed.
+Print Assumptions C05_resolve_is_fifo.
+
+(* ---- 12. shortest paths on ANY graph whose indices are nodes ---- *)
+Theorem C05_shortest_any_graph : forall C M (g : graph C M) v,
+  (forall e, In e (g_edges g) -> (e_dst e < length (g_nodes g))%nat) -> (g_root g < length (g_nodes g))%nat ->
+  (shortest_paths g v <> [] <-> exists l, fwalk (g_edges g) (g_root g) l /\ last l (g_root g) = v).
+Proof. exact @FB.C05.Theory10.shortest_any_graph. Qed.
+Print Assumptions C05_shortest_any_graph.
+
+(* ... so `apply_diffs` finds no path exactly for the nodes that no walk from the root reaches *)
+Theorem C05_no_path_iff_unreachable : forall C M D (o : ops C M D) (g : graph C M) v,
+  (forall e, In e (g_edges g) -> (e_dst e < length (g_nodes g))%nat) -> (g_root g < length (g_nodes g))%nat ->
+  (shortest_paths g v = [] <-> forall l, fwalk (g_edges g) (g_root g) l -> last l (g_root g) <> v).
+Proof. exact @FB.C05.Theory10.candidates_no_path_iff. Qed.
+Print Assumptions C05_no_path_iff_unreachable.
+
+(* ---- 13. confluence: when do all paths give the same answer ---- *)
+(* all walks from the root to the same node fold to the same mapping set (and none fails)  <->  the edge files are the
+   record of a history: one mapping set per node, every edge file out of a reachable node turns its source's set into
+   its target's *)
+Theorem C05_confluent_iff_history : forall C M D (o : ops C M D) (g : graph C M),
+  (forall e, In e (g_edges g) -> (e_dst e < length (g_nodes g))%nat) -> (g_root g < length (g_nodes g))%nat ->
+  ((forall l, fwalk (g_edges g) (g_root g) l -> exists m, fold_path o (g_edges g) (g_root_mapping g) (g_root g :: l) = Ok m) /\
+   (forall l1 l2, fwalk (g_edges g) (g_root g) l1 -> fwalk (g_edges g) (g_root g) l2 -> last l1 (g_root g) = last l2 (g_root g) ->
+      fold_path o (g_edges g) (g_root_mapping g) (g_root g :: l1) = fold_path o (g_edges g) (g_root_mapping g) (g_root g :: l2)))
+  <->
+  exists Hm : nat -> M, Hm (g_root g) = g_root_mapping g /\
+    forall a b, (exists l, fwalk (g_edges g) (g_root g) l /\ last l (g_root g) = a) -> In b (succs (g_edges g) a) ->
+      step o (g_edges g) a b (Hm a) = Ok (Hm b).
+Proof. exact @FB.C05.Theory10.confluent_iff_history. Qed.
+Print Assumptions C05_confluent_iff_history.
+
+(* instantiated: the printed record of a history is confluent (see also C05_dir_history_sound_instantiated) ... *)
+Theorem C05_history_confluent : forall (H : str -> FB.Quill.Mappings.mappings) (d : list (file str)) (rank : str -> nat),
+  well_formed d = true -> has_bad d = false -> tiny_count d = 1%nat ->
+  (forall f p v, In f d -> classify (fst f) = FEdge p v -> (rank p < rank v)%nat) ->
+  FB.C05.Instance.printed_history H d ->
+  exists g, resolve (load_root FB.C05.Instance.vg_ops) d = Ok g /\
+    forall v, FB.C05.Instance.reachable d v -> forall k, In k (keys v) ->
+    forall r1 r2, In r1 (candidates_by_name FB.C05.Instance.vg_ops g k) -> In r2 (candidates_by_name FB.C05.Instance.vg_ops g k) ->
+      FB.C05.Instance.res_rel FB.C04.Theory2.mequiv r1 r2.
+Proof. exact FB.C05.Theory11.history_confluent. Qed.
+Print Assumptions C05_history_confluent.
+
+(* ... so a directory on which two shortest paths fold to different sets is the printed record of NO history *)
+Theorem C05_nonconfluent_no_history : forall (d : list (file str)) (rank : str -> nat) g v k r1 r2,
+  well_formed d = true -> has_bad d = false -> tiny_count d = 1%nat ->
+  (forall f p v, In f d -> classify (fst f) = FEdge p v -> (rank p < rank v)%nat) ->
+  resolve (load_root FB.C05.Instance.vg_ops) d = Ok g -> FB.C05.Instance.reachable d v -> In k (keys v) ->
+  In r1 (candidates_by_name FB.C05.Instance.vg_ops g k) -> In r2 (candidates_by_name FB.C05.Instance.vg_ops g k) ->
+  ~ FB.C05.Instance.res_rel FB.C04.Theory2.mequiv r1 r2 ->
+  forall H, ~ FB.C05.Instance.printed_history H d.
+Proof. exact FB.C05.Theory11.nonconfluent_no_history. Qed.
+Print Assumptions C05_nonconfluent_no_history.
+
+(* such directories exist: r.tiny, r#x, r#y, x#z (pkg/A -> pkg/ViaX), y#z (pkg/A -> pkg/ViaY), real file contents, evaluated
+   with the instantiated model: two candidates for z that differ even up to map order *)
+Theorem C05_nonconfluent_example : FB.C05.Theory11.nonconfluent_example.
+Proof. exact FB.C05.Theory11.nonconfluent_example_holds. Qed.
+Print Assumptions C05_nonconfluent_example.
+
+(* non-vacuity of sections 9-10 on the repository's fixture: halves answered; the whole name 1.4~server-0.4, the mismatched
+   pairing 1.4~server-0.2, "", the prefix "1.", "1.4~", "~1.4", "1.3#1.4", "1.3.tiny", "1.3 " refused; reversing the listing
+   gives literally the same graph, also on a non-confluent diamond (same two candidates in the same order) *)
+Theorem C05_examples12 : FB.C05.Theory12.nonvacuous12.
+Proof. exact FB.C05.Theory12.nonvacuous12_holds. Qed.
+Print Assumptions C05_examples12.
+
+(* ---- 14. the instantiated history theorem WITHOUT its three inherited restrictions is false of the model ---- *)
+(* [hist_ok_full] = [hist_ok] (C05_history_dir_sound) minus: no empty comment (C04's open finding F4), not in C04's open
+   class F3 (a parameter's first-namespace name), same top-level comment.  [history_sound_instantiated_full] is the
+   statement of C05_history_dir_sound under [hist_ok_full]; it is NOT a theorem: *)
+From FB Require C05.Theory13.
+Theorem C05_history_full_definitions :
+  (forall M, FB.C05.Theory13.version_ok_full M =
+     (FB.Quill.Mappings.wf M && FB.C04.Hyps.two_ns M && str_eqb (nth 1 (FB.Quill.Mappings.ms_ns M) []) ns_named
+      && FB.C04.Hyps.named M && FB.C04.Hyps.textual_mappings M)%bool)
+  /\ (forall A B, FB.C05.Theory13.edge_ok_full A B = list_eqb str_eqb (FB.Quill.Mappings.ms_ns A) (FB.Quill.Mappings.ms_ns B))
+  /\ (forall h, FB.C05.InstanceDir.hist_ok h = true -> FB.C05.Theory13.hist_ok_full h = true)
+  /\ (FB.C05.Theory13.history_sound_instantiated_full <->
+      forall h, FB.C05.Theory13.hist_ok_full h = true ->
+      exists vr d g, hd_error (map fst (FB.C05.InstanceDir.h_versions h)) = Some vr
+        /\ FB.C05.InstanceDir.dir_of h = Ok d /\ resolve (load_root FB.C05.Instance.vg_ops) d = Ok g /\
+        forall L, FB.C05.InstanceDir.ewalk (FB.C05.InstanceDir.h_edges h) vr L -> let v := last L vr in forall k, In k (keys v) ->
+        exists sp i, get g k = Ok (sp, i) /\ nth_error (g_nodes g) i = Some v
+          /\ candidates_by_name FB.C05.Instance.vg_ops g k <> []
+          /\ forall r, In r (candidates_by_name FB.C05.Instance.vg_ops g k) ->
+               FB.C05.Instance.res_rel FB.C04.Theory2.mequiv r (FB.C11.Model.extend (FB.C05.InstanceDir.hget h v) ns_named)).
+Proof.
+  split; [reflexivity|]. split; [reflexivity|]. split; [exact FB.C05.Theory13.hist_ok_full_weaker|reflexivity].
+Qed.
+Print Assumptions C05_history_full_definitions.
+
+Theorem C05_history_sound_instantiated_full_refuted : ~ FB.C05.Theory13.history_sound_instantiated_full.
+Proof. exact FB.C05.Theory13.history_sound_instantiated_full_refuted. Qed.
+Print Assumptions C05_history_sound_instantiated_full_refuted.
+
+(* one two-version witness per dropped restriction (root r, child v, one edge file; everything else holds) *)
+Theorem C05_history_full_refuted_F4 :
+  FB.C05.Theory13.hist_ok_full (FB.C05.Theory13.w_hist FB.C05.Theory13.f4_r FB.C05.Theory13.f4_v) = true
+  /\ FB.C04.Hyps.has_empty_comment FB.C05.Theory13.f4_v = true
+  /\ ~ FB.C05.Theory13.history_dir_conclusion (FB.C05.Theory13.w_hist FB.C05.Theory13.f4_r FB.C05.Theory13.f4_v).
+Proof. exact FB.C05.Theory13.f4_refutes. Qed.
+Print Assumptions C05_history_full_refuted_F4.
+
+Theorem C05_history_full_refuted_F3 :
+  FB.C05.Theory13.hist_ok_full (FB.C05.Theory13.w_hist FB.C05.Theory13.f3_r FB.C05.Theory13.f3_v) = true
+  /\ FB.C04.Hyps.f3_class FB.C05.Theory13.f3_r FB.C05.Theory13.f3_v = true
+  /\ ~ FB.C05.Theory13.history_dir_conclusion (FB.C05.Theory13.w_hist FB.C05.Theory13.f3_r FB.C05.Theory13.f3_v).
+Proof. exact FB.C05.Theory13.f3_refutes. Qed.
+Print Assumptions C05_history_full_refuted_F3.
+
+Theorem C05_history_full_refuted_top_comment :
+  FB.C05.Theory13.hist_ok_full (FB.C05.Theory13.w_hist FB.C05.Theory13.top_r FB.C05.Theory13.top_v) = true
+  /\ FB.Quill.Mappings.ms_doc FB.C05.Theory13.top_r <> FB.Quill.Mappings.ms_doc FB.C05.Theory13.top_v
+  /\ ~ FB.C05.Theory13.history_dir_conclusion (FB.C05.Theory13.w_hist FB.C05.Theory13.top_r FB.C05.Theory13.top_v).
+Proof. exact FB.C05.Theory13.top_refutes. Qed.
+Print Assumptions C05_history_full_refuted_top_comment.
